@@ -624,7 +624,8 @@ func (hp *HTTPProxy) isLocalhost(host string) bool {
 	if slices.Contains(hp.localhost, host) {
 		return true
 	}
-	if ip := net.ParseIP(host); ip != nil && ip.IsLoopback() {
+	// The unspecified address is dialed as the local host, in any of its spellings (0.0.0.0, ::0, ::ffff:0.0.0.0, ...).
+	if ip := net.ParseIP(host); ip != nil && (ip.IsLoopback() || ip.IsUnspecified()) {
 		return true
 	}
 
